@@ -664,6 +664,14 @@ fn c07() -> Property {
                 cases_per_seed: 1,
             note: "same, with payloads that the transport splits below the session layer",
             },
+            Variant {
+                name: "listener-session-vs-scripted-sender",
+                weight: 2,
+                make: || Box::pin(scen::c07::run_listener()),
+                max_steps: 3_000_000,
+                cases_per_seed: 1,
+            note: "real listener session (receiving) <-> scripted sending peer, incl. transfer frames for a handle that is not attached; exact next-incoming-id at every quiescence",
+            },
         ],
         quick_runs: 6000,
         thorough_runs: 300_000,
@@ -676,6 +684,7 @@ fn c07() -> Property {
         real_components: REAL.to_vec(),
         stub_components: STUB.to_vec(),
         expected_probes: vec!["window-zero", "flow-with-unset-next-incoming-id", "quiescence-floor", "peer-sent-transfer", "exact-next-incoming-id-checked", "transport-level-split"],
+        // (the listener variant adds the fault kind transfer-for-unattached-handle)
     }
 }
 
